@@ -271,6 +271,13 @@ RETRY_HELLO:
     {
         if (rc == SSL_FULL)
         {
+            if (len <= (uint32) lssl->outsize)
+            {
+                /* Asked for no more than it was given: trying again
+                   with the same size would never end */
+                matrixSslDeleteSession(lssl);
+                return PS_LIMIT_FAIL;
+            }
             if ((tmp.buf = psRealloc(lssl->outbuf, len, lssl->bufferPool))
                 == NULL)
             {
